@@ -6,7 +6,7 @@ use crate::interpreter::variant_casts::VariantCasts;
 
 pub fn run<S: InterpreterTrait>(interpreter: &mut S) -> Result<(), RuntimeError> {
     let s: &str = interpreter.context()[0].to_str_unchecked();
-    let result = s.trim_start().to_owned();
+    let result = s.trim_start_matches(' ').to_owned();
     interpreter
         .context_mut()
         .set_built_in_function_result(BuiltInFunction::LTrim, result);
